@@ -289,6 +289,17 @@ func RunImplVia(c *Case, via string) (Out, []byte, []api.Entry) {
 			status = resp.StatusCode
 		}
 		ts.Close()
+	case "server":
+		// a real net/http server and client: what actually reaches a peer (net/http enforces things a
+		// recorder does not, e.g. no body with a 204 / 304 status)
+		ts := httptest.NewServer(s)
+		resp, err := http.Post(ts.URL, "application/json", strings.NewReader(c.Raw))
+		if err == nil {
+			body, _ = io.ReadAll(resp.Body)
+			resp.Body.Close()
+			status = resp.StatusCode
+		}
+		ts.Close()
 	default:
 		return RunImpl(c)
 	}
@@ -860,13 +871,25 @@ func Run(d *fw.Driver, res *fw.Result, seed int64, n int, corpus []json.RawMessa
 		}
 	}
 	cases = append(cases, Generate(seed, n)...)
-	for _, c := range cases {
+	for ci, c := range cases {
 		model, err := d.Ask(c)
 		if err != nil {
 			return err
 		}
 		out, body, ents := RunImpl(c)
 		mon := Monitor(c, out, body, ents)
+		if mon == "" && (ci%3 == 0 || c.Body.Kind == "batch") {
+			// the same body through a real HTTP server: the peer must see the same reply
+			out2, body2, ents2 := RunImplVia(c, "server")
+			if m2 := Monitor(c, out2, body2, ents2); m2 != "" {
+				mon = "over a real HTTP connection: " + m2
+				out, body = out2, body2
+			} else if fw.JSON(out2.Toks) != fw.JSON(out.Toks) || out2.Status != out.Status {
+				mon = fmt.Sprintf("over a real HTTP connection the peer receives status %d body %q, the recorder shows status %d body %q", out2.Status, body2, out.Status, body)
+				out, body = out2, body2
+			}
+			res.Count("via.server")
+		}
 		res.Count("body." + c.Body.Kind)
 		if int64(c.Size) > c.Max {
 			res.Count("oversize")
